@@ -211,6 +211,7 @@ fn gen_bop(rng: &mut Rng, r: &RefB, f32ok: bool, dist: &mut Dist) -> BOp {
     }
     dist.hit("malformed");
     let bad_h = |rng: &mut Rng, dist: &mut Dist| -> i64 {
+        if !live.is_empty() && rng.chance(1, 4) { dist.hit("malformed:handle-alias-of-live"); return { let k0 = *rng.pick(&live) as i128; alias_of(rng, k0, true) } as i64; }
         match rng.below(5) {
             0 | 1 if !dead.is_empty() => { dist.hit("malformed:stale-handle"); *rng.pick(&dead) }
             0 | 1 | 2 => { dist.hit("malformed:never-issued"); fresh + rng.range_i64(0, 2) }
@@ -219,7 +220,9 @@ fn gen_bop(rng: &mut Rng, r: &RefB, f32ok: bool, dist: &mut Dist) -> BOp {
         }
     };
     let k = rng.below(12);
-    if k == 0 { dist.hit("malformed:alloc"); return BOp::Alloc(*rng.pick(&[0i64, -1, -7, MAX_ALLOC + 1, 1 << 40, (1 << 47) - 1])); }
+    if k == 0 { dist.hit("malformed:alloc");
+        if rng.chance(1, 3) { dist.hit("malformed:alloc-size-alias-of-small"); let n = rng.range_i64(1, 16) as i128; return BOp::Alloc(({ let k0 = n; alias_of(rng, k0, true) } as i64).max(1 << 32)); }
+        return BOp::Alloc(*rng.pick(&[0i64, -1, -7, MAX_ALLOC + 1, 1 << 40, (1 << 47) - 1])); }
     if k == 1 { dist.hit("malformed:free"); return match rng.below(6) { 0 => BOp::Free(A::Null), 1 => BOp::Free(A::Flt), _ => BOp::Free(A::I(bad_h(rng, dist) as i128)) }; }
     if live.is_empty() || k <= 4 {
         let h = bad_h(rng, dist);
@@ -237,6 +240,7 @@ fn gen_bop(rng: &mut Rng, r: &RefB, f32ok: bool, dist: &mut Dist) -> BOp {
     let len = r.live[&h].len() as i64;
     let (w, sg, be) = pick_acc(rng);
     let bad_off = |rng: &mut Rng, dist: &mut Dist, w: i64| -> i64 {
+        if len >= w && rng.chance(1, 3) { dist.hit("malformed:offset-alias-of-valid"); return { let k0 = rng.range_i64(0, len - w) as i128; alias_of(rng, k0, true) } as i64; }
         match rng.below(5) {
             0 | 1 => { dist.hit("malformed:width-straddling-offset"); rng.range_i64((len - w + 1).max(0), len) }
             2 => { dist.hit("malformed:offset-past-end"); len + rng.range_i64(1, 40) }
@@ -251,8 +255,14 @@ fn gen_bop(rng: &mut Rng, r: &RefB, f32ok: bool, dist: &mut Dist) -> BOp {
                let v = if w == 8 { return BOp::Fill(h, 0, rng.range_i64(0, len), *rng.pick(&[-1i64, 256, 1000])); } else if rng.chance(1, 2) { hi + 1 + rng.range_i64(0, 3) } else { lo - 1 - rng.range_i64(0, 3) };
                if (w as i64) > len { BOp::Fill(h, 0, 1, 256) } else { BOp::Write { w, sg, be, h, off: rng.range_i64(0, len - w as i64), v } } }
         10 => { dist.hit("malformed:copy"); let d = *rng.pick(&live); let dl = r.live[&d].len() as i64;
-                match rng.below(4) { 0 => BOp::Copy(h, 0, d, 0, len.max(dl) + 1), 1 => BOp::Copy(h, len - 1, d, 0, 2), 2 => BOp::Copy(h, 0, d, dl - 1, 2), _ => BOp::Copy(h, 0, d, 0, -1) } }
-        _ => { dist.hit("malformed:fill-resize"); match rng.below(4) { 0 => BOp::Fill(h, len - 1, 2, 1), 1 => BOp::Fill(h, 0, -1, 1), 2 => BOp::Resize(h, *rng.pick(&[0i64, -1, MAX_ALLOC + 1])), _ => BOp::Fill(h, bad_off(rng, dist, 1), 1, 1) } }
+                match rng.below(7) { 0 => BOp::Copy(h, 0, d, 0, len.max(dl) + 1), 1 => BOp::Copy(h, len - 1, d, 0, 2), 2 => BOp::Copy(h, 0, d, dl - 1, 2), 3 => BOp::Copy(h, 0, d, 0, -1),
+                    4 => { dist.hit("malformed:length-alias-of-valid"); BOp::Copy(h, 0, d, 0, { let k0 = rng.range_i64(1, len.min(dl)) as i128; alias_of(rng, k0, true) } as i64) }
+                    5 => { dist.hit("malformed:offset-alias-of-valid"); BOp::Copy(h, { let k0 = 0; alias_of(rng, k0, true) } as i64, d, 0, 1) }
+                    _ => { dist.hit("malformed:offset-alias-of-valid"); BOp::Copy(h, 0, d, { let k0 = 0; alias_of(rng, k0, true) } as i64, 1) } } }
+        _ => { dist.hit("malformed:fill-resize"); match rng.below(6) { 0 => BOp::Fill(h, len - 1, 2, 1), 1 => BOp::Fill(h, 0, -1, 1), 2 => BOp::Resize(h, *rng.pick(&[0i64, -1, MAX_ALLOC + 1])),
+                    3 => { dist.hit("malformed:length-alias-of-valid"); BOp::Fill(h, 0, { let k0 = rng.range_i64(1, len) as i128; alias_of(rng, k0, true) } as i64, 1) }
+                    4 => { dist.hit("malformed:alloc-size-alias-of-small"); BOp::Resize(h, ({ let k0 = rng.range_i64(1, 16) as i128; alias_of(rng, k0, true) } as i64).max(1 << 32)) }
+                    _ => BOp::Fill(h, bad_off(rng, dist, 1), 1, 1) } }
     }
 }
 
